@@ -4,7 +4,7 @@ from __future__ import annotations
 import ast
 
 from sa.model import AnalysisError, calls_in, kwarg
-from sa.paths import function_paths, end_kind, consistent
+from sa.paths import function_paths, end_kind, consistent, must_raise
 from sa.util import U, Env, call_is, TupleItem
 from rules import conventions as conv
 from rules import wiring
@@ -39,6 +39,8 @@ def run(ctx):
     oki = "weights_array = weights_array[array_mask]" in txt and "array_mask.shape != weights_array.shape" in txt
     raises = any(s[0] == "cond" and "array_mask.shape != weights_array.shape" in U(s[1]) and s[2] and end_kind(p) == "raise"
                  for p in function_paths(ew.node) for s in p)
+    n_mr, off_mr = must_raise(ew.node, lambda e: "array_mask.shape != weights_array.shape" in U(e), when=True)
+    raises = raises and n_mr >= 1 and not off_mr
     ctx.check(oki and raises, "C01.b", "extract_weights:index", "weights[array_mask] after refusing a shape mismatch",
               "extract_weights no longer filters the weights with the mask (or no longer refuses wrongly shaped weights)", ew.where)
     wiring.flatten_order(ctx, "C01.b", m, "flattening:C-order")
